@@ -14,6 +14,8 @@ package c15
 
 import (
 	"fmt"
+	"os"
+	"time"
 	"sort"
 	"strings"
 	"sync"
@@ -30,7 +32,7 @@ func Check(r *ev.Run, replay string) {
 	}
 	maxLen := 3
 	if r.Thorough() {
-		maxLen = 4
+		maxLen = 5
 	}
 	r.Assumptions = []string{
 		"float NaN is excluded by the statement and is not in any pool",
@@ -40,6 +42,13 @@ func Check(r *ev.Run, replay string) {
 		"sorted()/list.sort() laws are demanded only for inputs whose distinct members the harness has just verified (object.Comparable.Compare, all ordered pairs and triples) to form a consistent preorder; other inputs are run and their outcome recorded only",
 		"a raised error cannot be written as a script expression; that one pool value is passed to scripts as a global",
 		"a Go panic recovered by the VM on input the statement does not cover (sorted() of non-comparable values) is recorded under observations_outside_statement, not reported",
+	}
+	t0 := time.Now()
+	tick := func(what string) {
+		if os.Getenv("C15_TIMING") != "" {
+			fmt.Fprintf(os.Stderr, "timing %-20s %.1fs\n", what, time.Since(t0).Seconds())
+		}
+		t0 = time.Now()
 	}
 	vals := pool()
 	if msg := checkLiterals(vals); msg != "" {
@@ -111,6 +120,7 @@ func Check(r *ev.Run, replay string) {
 	report(fT)
 	r.Eval(nT)
 
+	tick("A+B")
 	// ---------------------------------------------------------------- C
 	totalLists, listScripts := 0, 0
 	var notes []string
@@ -181,6 +191,31 @@ func Check(r *ev.Run, replay string) {
 		}
 		r.Eval(len(lists) * (nPieces + 1))
 	}
+	// ---------------------------------------------------------------- D
+	// Go's sort package switches from insertion sort to other algorithms above 12 elements;
+	// stability must survive that switch. All lists of length exactly 13.
+	longN := 13
+	long3 := longFamilies()[0]
+	tick("C lists")
+	nLong3, msg := longObjectSort(r, long3, longN, report)
+	if msg != "" {
+		r.EngineError(msg)
+		return
+	}
+	tick("D object.Sort long")
+	zeroAt := []int{0, 6, 12}
+	if r.Thorough() {
+		zeroAt = []int{0, 1, 2, 3, 4, 5, 6, 7, 8, 9, 10, 11, 12}
+	}
+	nLong2, nLong2Scripts, msg := longScriptSort(r, long3, longN, zeroAt, report)
+	if msg != "" {
+		r.EngineError(msg)
+		return
+	}
+	tick("D script long")
+	r.Set("long_lists_object_sort", nLong3)
+	r.Set("long_lists_script_sorted", nLong2)
+	listScripts += nLong2Scripts
 	r.Set("list_families", famSizes)
 	r.Set("lists_total", totalLists)
 	r.Set("scripts_evaluated_lists", listScripts)
@@ -200,7 +235,7 @@ func Check(r *ev.Run, replay string) {
 		r.Set("observations_outside_statement", map[string]any{"count": len(notes), "classes": classes, "first": notes[0]})
 	}
 	r.Set("bound_completed", maxLen)
-	r.Set("rule", fmt.Sprintf("A: all %d ordered pairs x %d operators and all %d triples over the 45-value pool through the object API; B: the same pairs and triples through scripts run by risor.Eval (literal operands, 45 scripts of %d guarded expressions) plus cell-by-cell agreement with A; C: every list of length 0..%d (bool: 0..%d) over each of %d families of 6 values (%d lists) through sorted, sorted twice, list.sort, set(), set literal, `in`, bool()/!! vs len, and object.Sort. distinct = distinct (level, type pair, answers of all %d operators) rows and distinct (family, outcome classes, sorted result) tuples",
+	r.Set("rule", fmt.Sprintf("A: all %d ordered pairs x %d operators and all %d triples over the 45-value pool through the object API; B: the same pairs and triples through scripts run by risor.Eval (literal operands, 45 scripts of %d guarded expressions) plus cell-by-cell agreement with A; C: every list of length 0..%d (bool: 0..%d) over each of %d families of 6 values (%d lists) through sorted, sorted twice, list.sort, set(), set literal, `in`, bool()/!! vs len, and object.Sort; D: every list of length 13 over {1, 1.0, 0} (3^13) through object.Sort and, through sorted()/list.sort() in scripts, those with exactly one 0 at position 0, 6 or 12 (thorough: any position) (Go's sort changes algorithm above 12 elements). distinct = distinct (level, type pair, answers of all %d operators) rows and distinct (family, outcome classes, sorted result) tuples",
 		stA.pairs, nOps, stA.triples, len(vals)*nOps, maxLen, maxLen+4, len(famSizes), totalLists, nOps))
 	r.Sample(map[string]any{"level": "object", "a": "int(2^53+1)", "b": "float(2^53)", "answers": objT.row(7, 14)})
 	r.Sample(map[string]any{"level": "script", "a": "int(2^53+1)", "b": "float(2^53)", "answers": scrT.row(7, 14), "expr": pairExprs(vals[7].Src, vals[14].Src)[oLT]})
@@ -253,6 +288,114 @@ func (fi *famInfo) objectSort(items []int, maxLen int) (out []finding) {
 		return []finding{{Sig: "sorted-" + law + ":" + fi.Name, What: fmt.Sprintf("family %s, input %s: object.Sort gives %s (breaks: %s)", fi.Name, fi.names(items), fi.show(got), law), Observed: fi.show(got), Expected: fi.show(want), Case: rc}}
 	}
 	return nil
+}
+
+func longFamilies() []family {
+	return []family{
+		{"long-num3", []val{vInt(1), vFloat(1), vInt(0)}},
+	}
+}
+
+// longObjectSort: every list of length n over a 3-value family through object.Sort.
+func longObjectSort(r *ev.Run, f family, n int, report func([]finding)) (int, string) {
+	fi, msg := newFamInfo(f)
+	if msg != "" {
+		return 0, msg
+	}
+	k := len(f.Vals)
+	pow := func(e int) int {
+		p := 1
+		for i := 0; i < e; i++ {
+			p *= k
+		}
+		return p
+	}
+	const prefixLen = 5
+	nPre, nSuf := pow(prefixLen), pow(n-prefixLen)
+	first := make([][]finding, nPre)
+	ev.ParFor(nPre, func(p int) {
+		items := make([]int, n)
+		x := p
+		for d := 0; d < prefixLen; d++ {
+			items[d] = x % k
+			x /= k
+		}
+		for s := 0; s < nSuf; s++ {
+			x := s
+			for d := prefixLen; d < n; d++ {
+				items[d] = x % k
+				x /= k
+			}
+			if fs := fi.objectSort(items, n); len(fs) > 0 && first[p] == nil {
+				first[p] = fs
+			}
+		}
+		r.Eval(nSuf)
+	})
+	for _, fs := range first {
+		report(fs)
+	}
+	r.Outcome("long|" + f.Name + "|object.Sort|all lists judged against the harness's stable sort")
+	return nPre * nSuf, ""
+}
+
+// longScriptSort: the lists of length n with exactly one 0 among 1 / 1.0 through sorted() and list.sort() in scripts.
+func longScriptSort(r *ev.Run, f family, n int, zeroAt []int, report func([]finding)) (int, int, string) {
+	fi, msg := newFamInfo(f)
+	if msg == "" {
+		msg = checkLiterals(f.Vals)
+	}
+	if msg != "" {
+		return 0, 0, msg
+	}
+	// exactly one 0 (index 2) at one of the given positions, every arrangement of {1, 1.0} elsewhere
+	fi.sortOnly = true
+	var lists [][]int
+	for _, pos := range zeroAt {
+		for i := 0; i < 1<<(n-1); i++ {
+			items := make([]int, 0, n)
+			for d := 0; d < n-1; d++ {
+				if d == pos {
+					items = append(items, 2)
+				}
+				items = append(items, (i>>d)&1)
+			}
+			if pos == n-1 {
+				items = append(items, 2)
+			}
+			lists = append(lists, items)
+		}
+	}
+	const batch = 32
+	nb := (len(lists) + batch - 1) / batch
+	results := make([][]finding, len(lists))
+	var mu sync.Mutex
+	engineErr, scripts := "", 0
+	ev.ParFor(nb, func(b int) {
+		lo, hi := b*batch, (b+1)*batch
+		if hi > len(lists) {
+			hi = len(lists)
+		}
+		out, ne, ee := fi.runBatch(lists[lo:hi])
+		for k := lo; ee == "" && k < hi; k++ {
+			results[k], _, _, ee = fi.judgeList(lists[k], n, out[k-lo])
+		}
+		mu.Lock()
+		scripts += ne
+		if ee != "" && engineErr == "" {
+			engineErr = ee
+		}
+		mu.Unlock()
+	})
+	if engineErr != "" {
+		return 0, 0, engineErr
+	}
+	for _, fs := range results {
+		report(fs)
+	}
+	r.Eval(len(lists) * nPieces)
+	r.Outcome("long|" + f.Name + "|sorted,list.sort|all lists judged against the harness's stable sort")
+	return len(lists), scripts, ""
 }
 
 // ------------------------------------------------------------ truthiness
@@ -417,7 +560,7 @@ func replayOne(r *ev.Run, path string) {
 		}
 		report(fs)
 	case "list":
-		for _, f := range families() {
+		for _, f := range append(families(), longFamilies()...) {
 			if f.Name != c.Family {
 				continue
 			}
